@@ -56,27 +56,46 @@ var engineFuncs = []string{"grammar.parser.failAt", "grammar.parser.parseExpr", 
 	"grammar.parser.parseNotCodeExpr", "grammar.parser.parseNotExpr", "grammar.parser.parseOneOrMoreExpr", "grammar.parser.parseRecoveryExpr", "grammar.parser.parseRuleRefExpr",
 	"grammar.parser.parseSeqExpr", "grammar.parser.parseThrowExpr", "grammar.parser.parseZeroOrMoreExpr", "grammar.parser.parseZeroOrOneExpr"}
 
+// withChain: a property observed at Evaluate depends on every link between
+// Evaluate and the code that implements it - a change in any link (a
+// post-processing step in evaluate(), a fast path in a dispatcher) must fail
+// under that property's own check, not only under C01's.
+func withChain(extra ...string) []string {
+	out := append([]string(nil), evalChain...)
+	have := map[string]bool{}
+	for _, k := range out {
+		have[k] = true
+	}
+	for _, k := range extra {
+		if !have[k] {
+			have[k] = true
+			out = append(out, k)
+		}
+	}
+	return out
+}
+
 func init() {
 	add := func(p *propSpec) { propTable[p.ID] = p }
 	add(&propSpec{ID: "C01", Level: "proof", Funcs: evalChain,
 		Trusted: trust("A-JSON", "A-REGEXP", "A-STRINGS", "A-PS", "A-HOOK", "A-SORT", "A-STACK")})
-	add(&propSpec{ID: "C02", Level: "proof", Funcs: []string{"bexpr.CoerceInt64", "bexpr.CoerceUint64", "bexpr.CoerceBool", "bexpr.CoerceFloat32", "bexpr.CoerceFloat64",
+	add(&propSpec{ID: "C02", Level: "proof", Funcs: withChain([]string{"bexpr.CoerceInt64", "bexpr.CoerceUint64", "bexpr.CoerceBool", "bexpr.CoerceFloat32", "bexpr.CoerceFloat64",
 		"bexpr.getMatchExprValue", "bexpr.primitiveEqualityFn", "bexpr.doEqualBool", "bexpr.doEqualInt64", "bexpr.doEqualUint64", "bexpr.doEqualFloat32",
-		"bexpr.doEqualFloat64", "bexpr.doEqualString", "bexpr.doMatchEqual", "bexpr.evaluateMatchExpression"},
+		"bexpr.doEqualFloat64", "bexpr.doEqualString", "bexpr.doMatchEqual", "bexpr.evaluateMatchExpression"}...),
 		Trusted: trust("A-JSON", "A-PS")})
-	add(&propSpec{ID: "C03", Level: "proof", Funcs: []string{"bexpr.evaluate"}, Trusted: trust("A-STACK")})
-	add(&propSpec{ID: "C04", Level: "proof", Funcs: []string{"bexpr.evaluateMatchExpression", "grammar.MatchOperator.NotPresentDisposition", "bexpr.doMatchIsEmpty", "bexpr.doMatchEqual", "bexpr.doMatchIn", "bexpr.doMatchMatches"},
+	add(&propSpec{ID: "C03", Level: "proof", Funcs: withChain([]string{"bexpr.evaluate"}...), Trusted: trust("A-STACK")})
+	add(&propSpec{ID: "C04", Level: "proof", Funcs: withChain([]string{"bexpr.evaluateMatchExpression", "grammar.MatchOperator.NotPresentDisposition", "bexpr.doMatchIsEmpty", "bexpr.doMatchEqual", "bexpr.doMatchIn", "bexpr.doMatchMatches"}...),
 		Trusted: trust("A-PS", "A-REGEXP", "A-STRINGS", "A-JSON")})
-	add(&propSpec{ID: "C05", Level: "proof", Funcs: append([]string{"bexpr.getValue", "bexpr.evaluateNotPresent", "bexpr.derefValue", "grammar.MatchOperator.NotPresentDisposition",
-		"bexpr.evaluateMatchExpression", "bexpr.evaluateCollectionExpression", "bexpr.Evaluator.Evaluate"}, optFuncs...),
+	add(&propSpec{ID: "C05", Level: "proof", Funcs: withChain(append([]string{"bexpr.getValue", "bexpr.evaluateNotPresent", "bexpr.derefValue", "grammar.MatchOperator.NotPresentDisposition",
+		"bexpr.evaluateMatchExpression", "bexpr.evaluateCollectionExpression", "bexpr.Evaluator.Evaluate"}, optFuncs...)...),
 		Trusted: trust("A-PS", "A-HOOK")})
-	add(&propSpec{ID: "C06", Level: "proof", Funcs: append([]string{"bexpr.evaluateCollectionExpression", "bexpr.evaluateCollectionExpression$1", "bexpr.getValue"}, optFuncs...),
+	add(&propSpec{ID: "C06", Level: "proof", Funcs: withChain(append([]string{"bexpr.evaluateCollectionExpression", "bexpr.evaluateCollectionExpression$1", "bexpr.getValue"}, optFuncs...)...),
 		Trusted: trust("A-PS", "A-SORT", "A-STACK")})
 	// determinism is a consequence of the functional posts (the result is a spec function of the
 	// arguments, with the key enumeration unconstrained): every function of the chain counts
 	add(&propSpec{ID: "C14", Level: "proof", Funcs: append(append([]string(nil), evalChain...), "bexpr.Filter.Execute"),
 		Trusted: trust("A-SORT", "A-PS")})
-	add(&propSpec{ID: "C18", Level: "proof", Funcs: append([]string{"bexpr.Evaluator.Evaluate", "bexpr.evaluate", "bexpr.evaluateMatchExpression", "bexpr.evaluateCollectionExpression", "bexpr.evaluateCollectionExpression$1", "bexpr.getValue", "bexpr.evaluateNotPresent", "bexpr.Filter.Execute", "bexpr.CreateEvaluator", "bexpr.CreateFilter", "grammar.MaxExpressions"}, optFuncs...),
+	add(&propSpec{ID: "C18", Level: "proof", Funcs: withChain(append([]string{"bexpr.Evaluator.Evaluate", "bexpr.evaluate", "bexpr.evaluateMatchExpression", "bexpr.evaluateCollectionExpression", "bexpr.evaluateCollectionExpression$1", "bexpr.getValue", "bexpr.evaluateNotPresent", "bexpr.Filter.Execute", "bexpr.CreateEvaluator", "bexpr.CreateFilter", "grammar.MaxExpressions"}, optFuncs...)...),
 		Trusted: trust("A-PS", "A-HOOK")})
 	add(&propSpec{ID: "C10", Level: "proof", Funcs: []string{"bexpr.CreateEvaluator", "bexpr.CreateFilter", "bexpr.compileRegexps", "grammar.MaxExpressions", "grammar.parser.parse", "grammar.parser.parse$1", "grammar.errList.add", "grammar.errList.err", "grammar.errList.dedupe", "grammar.parser.addErr", "grammar.parser.addErrAt",
 		// the engine's value passing (ensures "yields" / "shape" / "fail_nil" against spec/27-peg.smt2)
@@ -104,16 +123,16 @@ func init() {
 	add(&propSpec{ID: "C16", Level: "exploration", BatteryIsCheck: true, DistinctKey: "distinct_texts", Funcs: actionFuncs,
 		Rule:    "trees of depth <= 2 over 3 selectors x 8 operators x 4 literals x not/and/or x any/all with 4 binding modes (thinned to ~1500 in the quick tier), each rendered under 4 layouts (thorough: 76) choosing whitespace, redundant parentheses, quote style, selector spelling and in/contains; parsed back with grammar.Parse and compared with the tree (modulo Selector.Type); plus X == <quoted s> on X = s and X = s+\"x\" for 226 strings in both quote styles. distinct_nontrivial = distinct rendered texts",
 		Trusted: []string{"A-GEN", "A-ENGINE"}})
-	add(&propSpec{ID: "C07", Level: "proof", Funcs: append([]string{"bexpr.getValue", "bexpr.evaluateMatchExpression", "bexpr.evaluateCollectionExpression", "grammar.Selector.String"}, selectorActionFuncs...),
+	add(&propSpec{ID: "C07", Level: "proof", Funcs: withChain(append([]string{"bexpr.getValue", "bexpr.evaluateMatchExpression", "bexpr.evaluateCollectionExpression", "grammar.Selector.String"}, selectorActionFuncs...)...),
 		// which text reaches which selector action is the grammar's business: the bounded
 		// spelling run is part of the check (labelled bounded, never counted as proved)
 		BatteryIsCheck: true, DistinctKey: "spellings",
-		Rule:           "every path r.k1.k2[.z] over 18 keys (identifiers, digits, zero-padded digits, non-ASCII numerals, ~ / escapes, case, unicode, : | . -) in the dotted, [\"k\"], [`k`] and JSON-pointer spelling wherever grammar.peg admits that spelling, under 7 expression templates (both sides of in, is empty, matches, inside any, under not); each spelling must be accepted and evaluate like the bracket spelling; plus quantified collections and quantifier bodies in every spelling and the path cases of C05",
-		Extras:         []string{"read:selector-type"}, Trusted: trust("A-PS", "A-ENGINE")})
+		Rule:   "every path r.k1.k2[.z] over 18 keys (identifiers, digits, zero-padded digits, non-ASCII numerals, ~ / escapes, case, unicode, : | . -) in the dotted, [\"k\"], [`k`] and JSON-pointer spelling wherever grammar.peg admits that spelling, under 7 expression templates (both sides of in, is empty, matches, inside any, under not); each spelling must be accepted and evaluate like the bracket spelling; plus quantified collections and quantifier bodies in every spelling and the path cases of C05",
+		Extras: []string{"read:selector-type"}, Trusted: trust("A-PS", "A-ENGINE")})
 	add(&propSpec{ID: "C20", Level: "translation_validation", Extras: []string{"table:peg"}, NoBattery: true,
 		Trusted: []string{"A-GEN"}})
-	add(&propSpec{ID: "C08", Level: "proof", Funcs: []string{"bexpr.getValue", "bexpr.evaluateNotPresent", "bexpr.doMatchIsEmpty", "bexpr.doMatchEqual", "bexpr.doMatchIn", "bexpr.doMatchMatches",
-		"bexpr.doEqualString", "bexpr.evaluateCollectionExpression$1", "bexpr.Evaluator.Evaluate", "bexpr.Filter.Execute"},
+	add(&propSpec{ID: "C08", Level: "proof", Funcs: withChain([]string{"bexpr.getValue", "bexpr.evaluateNotPresent", "bexpr.doMatchIsEmpty", "bexpr.doMatchEqual", "bexpr.doMatchIn", "bexpr.doMatchMatches",
+		"bexpr.doEqualString", "bexpr.evaluateCollectionExpression$1", "bexpr.Evaluator.Evaluate", "bexpr.Filter.Execute"}...),
 		Extras: []string{"read:no-struct-content"}, Trusted: trust("A-PS", "A-HOOK", "A-EXT-PURE")})
 	add(&propSpec{ID: "C12", Level: "proof", Funcs: []string{"bexpr.doMatchMatches", "bexpr.compileRegexps"},
 		Extras:  []string{"frame:write:bexpr.Evaluator.Evaluate,bexpr.Filter.Execute,bexpr.CreateEvaluator,bexpr.CreateFilter,bexpr.Evaluator.Expression", "frame:no-concurrency"},
